@@ -44,6 +44,17 @@ PROPS = {
             rc("rc", ["props/C18_rc.cpp"], 400, 6000, qs=4, ts=16),
         ],
     ),
+    "C19": dict(
+        level="exploration",
+        exhaustive_possible=False,
+        rule="cases are transitions of the pair (ring-buffer implementation state, bounded-queue model) and random op histories; non-trivial = pre-state physically "
+             "wrapped or full, an evicting or dropped put, capacity 1, or a history with wrap-around/eviction/clear-and-reuse; distinct by state+op hash / history hash",
+        assumptions=COMMON_ASSUME,
+        targets=[
+            enum("enum", ["props/C19_enum.cpp", "shims/rings.c"], qs=12, ts=16),
+            rc("rc", ["props/C19_rc.cpp", "shims/rings.c"], 300, 6000, qs=4, ts=16),
+        ],
+    ),
 }
 
 NOTE_COMMON = ("trusted: clang/ASan/UBSan, the harness and its reference model; the search is bounded (see evidence: tier bounds and counts); "
@@ -55,6 +66,14 @@ MANIFEST_TEXT = {
         level_text="Every operation sequence up to depth 4 (thorough: 5) from every valid initial state of buffers of size 1..4 (5) is executed on the "
                    "real implementation and compared field by field and octet by octet with a list model after each step; long random histories on "
                    "buffers up to 64 octets extend the reach. Exploration, not proof: larger buffers and longer histories are sampled.",
+        level_note=NOTE_COMMON,
+    ),
+    "C19": dict(
+        engine="enum + rapidcheck",
+        technique="explicit-state exploration of (implementation, queue model) pairs to closure + rapidcheck stateful histories",
+        level_text="All reachable (head, tail, override flag, slot contents, model queue) pairs for capacities 1..4 (thorough 1..6) over a two-value alphabet "
+                   "are explored to closure for three element types, checking size/empty/full, get and both iterators after every transition; random histories "
+                   "reach capacities up to 64. The closure is exhaustive for the stated alphabet and capacities only.",
         level_note=NOTE_COMMON,
     ),
 }
